@@ -17,9 +17,10 @@ RUN_TIMEOUT = 120
 SELFTEST_PAIRS = {"quick": 12, "thorough": 40}
 PROBES = ["empty_page_with_nextlink", "fault_on_folder_pass", "fault_on_token", "fault_on_site", "fault_on_folder_by_path",
           "fault_on_next_page", "consumer_closed_midway", "multi_call_history", "named_drive", "bound_exactly_on_timestamp",
-          "relax_404_folder_lookup", "fractional_timestamp"]
+          "relax_404_folder_lookup", "fractional_timestamp", "second_fault_during_retry", "second_fault_on_token", "repeat_with_same_argument_objects"]
 RULE = ("one run = one simulated library (random tree, page-size policy, 1-3 listing calls with filters) executed "
-        "fault-free against a reference walk, then once per (request index k, fault kind) with a healthy retry; "
+        "fault-free against a reference walk, then once per (request index k, fault kind), a seeded share of those followed by a second "
+        "fault at a seeded request of the caller's retry, always ending with a healthy retry; "
         "a case is non-trivial and distinct by (call kind, request class of k, fault kind, k>1, tree has >1 page, tree depth>1)")
 ASSUMPTIONS = [
     "the Graph/Entra server, the response objects and the transport are stubs written from the Graph API behaviour the client relies on (GraphSim)",
@@ -236,7 +237,8 @@ def gen_case(rng: random.Random, tier: str) -> dict:
     if rng.random() < 0.6:
         kinds += rng.sample(EXT_KINDS, rng.choice([2, 4, len(EXT_KINDS)]))
     return {"lib": {"site": site, "drives": drives, "pages": pages}, "calls": calls, "faults": {"mode": "enumerate", "kinds": kinds,
-            "cap": 80 if tier == "quick" else 200, "pick": rng.randrange(1 << 30)}, "status_attr": rng.random() < 0.8}
+            "cap": 80 if tier == "quick" else 200, "pick": rng.randrange(1 << 30),
+            "second": rng.choice([0, 0, 0.25, 0.25, 1.0])}, "status_attr": rng.random() < 0.8}
 
 
 # ----------------------------------------------------------------------------------------------- reference model
@@ -342,25 +344,38 @@ def _mk_filter(flt):
     return c.FileFilter(**kw)
 
 
-def _invoke(client, sim, call, viol, tagc):
+def _args_for(call, held, tagc):
+    """The caller's own argument objects for one call of the history: built once from the (immutable) case and
+    reused when the caller repeats or retries that call, the way a program keeps its FileFilter / folder list around."""
+    if held is None:
+        held = {}
+    a = held.get(tagc)
+    if a is None:
+        a = held[tagc] = {"filter": _mk_filter(call["filter"]) if call.get("filter") is not None else None,
+                          "since": datetime.fromisoformat(call["since"]) if call.get("since") else None,
+                          "folder_paths": list(call["folder_paths"]) if call.get("folder_paths") else None,
+                          "extensions": list(call["extensions"]) if call.get("extensions") else None}
+    return a
+
+
+def _invoke(client, sim, call, viol, tagc, held=None):
     """Run one listing call, consuming lazily; returns (items, exception, closed_early)."""
     kind = call["kind"]
     drive = call.get("drive") or None
     items = []
     exc = None
+    a = _args_for(call, held, tagc)
     try:
         if kind == "list_all_files":
             res = client.list_all_files()
         elif kind == "list_files_in_folder":
             res = client.list_files_in_folder(call["folder"], drive_id=drive)
         elif kind == "list_files_filtered":
-            res = client.list_files_filtered(_mk_filter(call["filter"]), drive_id=drive)
+            res = client.list_files_filtered(a["filter"], drive_id=drive)
         elif kind == "list_files_modified_since":
-            res = client.list_files_modified_since(datetime.fromisoformat(call["since"]), folder_paths=call["folder_paths"] or None,
-                                                   extensions=call["extensions"] or None, drive_id=drive)
+            res = client.list_files_modified_since(a["since"], folder_paths=a["folder_paths"], extensions=a["extensions"], drive_id=drive)
         else:
-            res = client.list_files_created_since(datetime.fromisoformat(call["since"]), folder_paths=call["folder_paths"] or None,
-                                                  extensions=call["extensions"] or None, drive_id=drive)
+            res = client.list_files_created_since(a["since"], folder_paths=a["folder_paths"], extensions=a["extensions"], drive_id=drive)
         if isinstance(res, list):
             items = list(res)
         else:
@@ -422,6 +437,57 @@ def _submultiset(a, b):
     return True
 
 
+def _judge(kind, rclass, k, furl, exc, items, ref, viol, tagsig, focus, probe):
+    """Oracle for one call that met one injected fault: it fails inside the client's error family with the failing
+    request's status and URL, and whatever it yielded first is real data."""
+    from sharepoint2text.sharepoint_io.exceptions import SharePointError, SharePointRequestError
+    is_404 = kind in ("http:404", "status:404")
+    if exc is None:
+        if is_404 and rclass == "folder_by_path":
+            probe("relax_404_folder_lookup")  # indistinguishable from "folder does not exist": empty listing is documented
+            if not _submultiset(_tuples(items), ref):
+                viol.append({"class": "fault_wrong_data", "sig": tagsig, "case": focus,
+                             "detail": f"k={k}: items not within reference after 404 on folder lookup"})
+        elif kind == "status:199" or kind.startswith("status:") and 200 <= int(kind[7:]) < 300:
+            pass
+        else:
+            viol.append({"class": "fault_swallowed", "sig": tagsig, "case": focus,
+                         "detail": f"k={k} url={furl}: request failed ({kind}) but the call returned normally with {len(items)} items"})
+    else:
+        if not isinstance(exc, SharePointError):
+            viol.append({"class": "fault_escape", "sig": tagsig + "|" + type(exc).__name__, "case": focus,
+                         "detail": f"k={k} url={furl}: {type(exc).__name__}: {exc!r} is not of the client's SharePointError family"})
+        else:
+            want_status = None
+            need_req = False
+            if kind.startswith("http_bin:"):
+                want_status, need_req = int(kind[9:]), True
+            elif kind.startswith("status_bin:"):
+                want_status, need_req = int(kind[11:]), True
+            elif kind.startswith("http:"):
+                want_status, need_req = int(kind[5:]), True
+            elif kind.startswith("status:"):
+                want_status, need_req = int(kind[7:]), True
+            elif kind.startswith("nostatus:"):
+                want_status, need_req = int(kind[9:]), True
+            elif kind.startswith("urlerror") or kind.startswith("exc_"):
+                want_status, need_req = None, True
+            if need_req:
+                if not isinstance(exc, SharePointRequestError):
+                    viol.append({"class": "fault_wrong_error", "sig": tagsig + "|" + type(exc).__name__, "case": focus,
+                                 "detail": f"k={k}: HTTP/network failure must raise SharePointRequestError, got {exc!r}"})
+                else:
+                    if exc.status_code != want_status:
+                        viol.append({"class": "fault_wrong_status", "sig": tagsig, "case": focus,
+                                     "detail": f"k={k}: status_code={exc.status_code!r}, injected {want_status!r}"})
+                    if exc.url != furl:
+                        viol.append({"class": "fault_wrong_url", "sig": tagsig, "case": focus,
+                                     "detail": f"k={k}: error url={exc.url!r}, failing request url={furl!r}"})
+        if not _submultiset(_tuples(items), ref):
+            viol.append({"class": "fault_wrong_data", "sig": tagsig, "case": focus,
+                         "detail": f"k={k}: items yielded before the error are not within the reference"})
+
+
 def run_case(case: dict) -> dict:
     from sharepoint2text.sharepoint_io.exceptions import SharePointError, SharePointRequestError
     lib = case["lib"]
@@ -455,9 +521,10 @@ def run_case(case: dict) -> dict:
     # ---- fault-free pass
     sim, cl = _new(lib, log, case.get('status_attr', True))
     spans = []  # (call index, first request index, end request index)
+    held0 = {}
     for ci, call in enumerate(calls):
         a = sim.nreq
-        items, exc, closed = _invoke(cl, sim, call, viol, ci)
+        items, exc, closed = _invoke(cl, sim, call, viol, ci, held0)
         evals += 1
         spans.append((ci, a, sim.nreq))
         if closed:
@@ -482,14 +549,23 @@ def run_case(case: dict) -> dict:
         if sim.open_responses():
             viol.append({"class": "response_left_open", "sig": f"{call['kind']}|after_return",
                          "detail": f"{sim.open_responses()} responses open after the call returned"})
+    nfree = sim.nreq
+    reqclasses = [r["class"] for r in sim.reqlog]
+    requrls = [r["url"] for r in sim.reqlog]
+    if not viol:
+        # the caller repeats every call with the very same argument objects (filter, folder list): same listing again
+        for ci, call in enumerate(calls):
+            items, exc, _c = _invoke(cl, sim, dict(call, consume="all"), viol, ci, held0)
+            evals += 1
+            probe("repeat_with_same_argument_objects")
+            if exc is not None or _tuples(items) != refs[ci]:
+                viol.append({"class": "faultfree_wrong_listing", "sig": f"{call['kind']}|second_run_same_arguments",
+                             "detail": f"call {ci} {call} repeated with the same argument objects: exc={exc!r}, {len(items)} items, reference {len(refs[ci])}"})
     fresh_n = []
     for ci, call in enumerate(calls):  # request budget of a healthy retry: what a fresh client needs for this call alone
         sim_f, cl_f = _new(lib, None, case.get('status_attr', True))
         _invoke(cl_f, sim_f, dict(call, consume="all"), [], ci)
         fresh_n.append(sim_f.nreq)
-    nfree = sim.nreq
-    reqclasses = [r["class"] for r in sim.reqlog]
-    requrls = [r["url"] for r in sim.reqlog]
     log.ev("faultfree", nfree, len(viol))
     if viol:
         # fault enumeration on a tree that is already wrong fault-free would only repeat the same defect
@@ -505,7 +581,20 @@ def run_case(case: dict) -> dict:
         if len(plan) > cap:
             r2 = random.Random(fspec["pick"])
             plan = sorted(r2.sample(plan, cap))
-    for (k, kind) in plan:
+        frac2 = fspec.get("second", 0)
+        if frac2:
+            # a seeded share of the single faults is followed by a second fault somewhere inside the caller's retry
+            r3 = random.Random(fspec["pick"] * 7919 + 13)
+            plan2 = []
+            for (k, kind) in plan:
+                if r3.random() < frac2:
+                    plan2.append((k, kind, r3.randrange(0, 1 + max(fresh_n)), r3.choice(fspec["kinds"])))
+                else:
+                    plan2.append((k, kind))
+            plan = plan2
+    for ent in plan:
+        k, kind = ent[0], ent[1]
+        second = (ent[2], ent[3]) if len(ent) >= 4 else None
         if k >= nfree:
             continue
         ci = next(c for c, a, b in spans if a <= k < b) if any(a <= k < b for _, a, b in spans) else None
@@ -516,9 +605,10 @@ def run_case(case: dict) -> dict:
         sim.fault = {k: kind}
         v_before = len(viol)
         # history before the faulted call (healthy)
+        held = {}
         for cj in range(ci):
-            _invoke(cl, sim, calls[cj], viol, cj)
-        items, exc, closed = _invoke(cl, sim, call, viol, ci)
+            _invoke(cl, sim, calls[cj], viol, cj, held)
+        items, exc, closed = _invoke(cl, sim, call, viol, ci, held)
         evals += 1
         fired = bool(sim.fired)
         rclass = reqclasses[k]
@@ -539,61 +629,41 @@ def run_case(case: dict) -> dict:
         if rclass in ("children", "children_next") and requrls[:k].count(requrls[k]) >= 1:
             probe("fault_on_folder_pass")
         furl = sim.fired[0][3]
-        is_404 = kind in ("http:404", "status:404")
-        focus = dict(case, faults={"mode": "list", "list": [[k, kind]]})
-        if exc is None:
-            if is_404 and rclass == "folder_by_path":
-                probe("relax_404_folder_lookup")  # indistinguishable from "folder does not exist": empty listing is documented
-                if not _submultiset(_tuples(items), refs[ci]):
-                    viol.append({"class": "fault_wrong_data", "sig": tagsig, "case": focus,
-                                 "detail": f"k={k}: items not within reference after 404 on folder lookup"})
-            elif kind == "status:199" or kind.startswith("status:") and 200 <= int(kind[7:]) < 300:
-                pass
-            else:
-                viol.append({"class": "fault_swallowed", "sig": tagsig, "case": focus,
-                             "detail": f"k={k} url={furl}: request failed ({kind}) but the call returned normally with {len(items)} items"})
-        else:
-            if not isinstance(exc, SharePointError):
-                viol.append({"class": "fault_escape", "sig": tagsig + "|" + type(exc).__name__, "case": focus,
-                             "detail": f"k={k} url={furl}: {type(exc).__name__}: {exc!r} is not of the client's SharePointError family"})
-            else:
-                want_status = None
-                need_req = False
-                if kind.startswith("http_bin:"):
-                    want_status, need_req = int(kind[9:]), True
-                elif kind.startswith("status_bin:"):
-                    want_status, need_req = int(kind[11:]), True
-                elif kind.startswith("http:"):
-                    want_status, need_req = int(kind[5:]), True
-                elif kind.startswith("status:"):
-                    want_status, need_req = int(kind[7:]), True
-                elif kind.startswith("nostatus:"):
-                    want_status, need_req = int(kind[9:]), True
-                elif kind.startswith("urlerror") or kind.startswith("exc_"):
-                    want_status, need_req = None, True
-                if need_req:
-                    if not isinstance(exc, SharePointRequestError):
-                        viol.append({"class": "fault_wrong_error", "sig": tagsig + "|" + type(exc).__name__, "case": focus,
-                                     "detail": f"k={k}: HTTP/network failure must raise SharePointRequestError, got {exc!r}"})
-                    else:
-                        if exc.status_code != want_status:
-                            viol.append({"class": "fault_wrong_status", "sig": tagsig, "case": focus,
-                                         "detail": f"k={k}: status_code={exc.status_code!r}, injected {want_status!r}"})
-                        if exc.url != furl:
-                            viol.append({"class": "fault_wrong_url", "sig": tagsig, "case": focus,
-                                         "detail": f"k={k}: error url={exc.url!r}, failing request url={furl!r}"})
-            if not _submultiset(_tuples(items), refs[ci]):
-                viol.append({"class": "fault_wrong_data", "sig": tagsig, "case": focus,
-                             "detail": f"k={k}: items yielded before the error are not within the reference"})
+        focus = dict(case, faults={"mode": "list", "list": [list(ent)]})
+        _judge(kind, rclass, k, furl, exc, items, refs[ci], viol, tagsig, focus, probe)
         if sim.open_responses():
             viol.append({"class": "response_left_open", "sig": tagsig, "case": focus,
                          "detail": f"k={k}: {sim.open_responses()} of {len(sim.responses)} responses not closed when the call ended"})
+        # ---- fault sequence: the fault has not healed yet; the caller's retry on the same client meets a second one
+        if second is not None:
+            j, kind2 = second
+            nf0 = len(sim.fired)
+            sim.fault = {sim.nreq + j: kind2}
+            sim.nresp_pages = 0
+            items_b, exc_b, _ = _invoke(cl, sim, dict(call, consume="all"), viol, ci, held)
+            evals += 1
+            if len(sim.fired) > nf0:
+                _k2, _kd, rclass2, furl2 = sim.fired[-1]
+                faults[kind2] = faults.get(kind2, 0) + 1
+                probe("second_fault_during_retry")
+                if rclass2 == "token":
+                    probe("second_fault_on_token")
+                tag2 = f"{kind2}|{rclass2}|after:{kind}|{rclass}"
+                nontriv.add(f"2nd|{call['kind']}|{rclass}|{kind}|{rclass2}|{kind2}")
+                _judge(kind2, rclass2, f"{k}+{j}", furl2, exc_b, items_b, refs[ci], viol, tag2, focus, probe)
+                tagsig = tag2
+            elif exc_b is not None or _tuples(items_b) != refs[ci]:
+                viol.append({"class": "no_recovery", "sig": tagsig + "|retry_before_second_fault", "case": focus,
+                             "detail": f"k={k}: healthy retry (second fault at +{j} never reached) gave exc={exc_b!r}, {len(items_b)} items"})
+            if sim.open_responses():
+                viol.append({"class": "response_left_open", "sig": tagsig, "case": focus,
+                             "detail": f"k={k}+{j}: {sim.open_responses()} responses not closed after the second faulted call"})
         # ---- faults stop: the same call on the same client must now return the complete listing
         sim.fault = {}
         sim.nresp_pages = 0  # the server restarts its page-size policy, as for the fresh client that defines the request budget
         before = sim.nreq
         call2 = dict(call, consume="all")
-        items2, exc2, _ = _invoke(cl, sim, call2, viol, ci)
+        items2, exc2, _ = _invoke(cl, sim, call2, viol, ci, held)
         evals += 1
         used = sim.nreq - before
         a, b = spans[ci][1], spans[ci][2]
@@ -609,7 +679,7 @@ def run_case(case: dict) -> dict:
                              "detail": f"k={k}: retry used {used} requests, a fresh client needs {fresh_n[ci]} for the whole call"})
         # later calls of the history still behave
         for cj in range(ci + 1, len(calls)):
-            itj, excj, closedj = _invoke(cl, sim, calls[cj], viol, cj)
+            itj, excj, closedj = _invoke(cl, sim, calls[cj], viol, cj, held)
             evals += 1
             if excj is not None or (not closedj and _tuples(itj) != refs[cj]):
                 viol.append({"class": "history_after_fault", "sig": f"{tagsig}|then:{calls[cj]['kind']}", "case": focus,
@@ -648,13 +718,22 @@ def _prune(items, path):
 
 
 def shrink(case):
+    # 0. a single fault instead of a sequence
+    if case["faults"]["mode"] == "list" and any(len(e) >= 4 for e in case["faults"]["list"]):
+        c = copy.deepcopy(case)
+        c["faults"]["list"] = [e[:2] for e in c["faults"]["list"]]
+        yield c
+    elif case["faults"].get("second"):
+        c = copy.deepcopy(case)
+        c["faults"]["second"] = 0
+        yield c
     # 1. fewer calls
     if len(case["calls"]) > 1:
         for i in range(len(case["calls"])):
             c = copy.deepcopy(case)
             del c["calls"][i]
             if c["faults"]["mode"] == "list":
-                c["faults"] = {"mode": "enumerate", "kinds": sorted({k for _i, k in case["faults"]["list"]}), "cap": 80, "pick": 1}
+                c["faults"] = _reenum(case)
             yield c
     # 2. simpler paging
     if case["lib"]["pages"] != [100]:
@@ -697,5 +776,6 @@ def shrink(case):
 def _reenum(case):
     f = case["faults"]
     if f["mode"] == "list":
-        return {"mode": "enumerate", "kinds": sorted({k for _i, k in f["list"]}), "cap": 200, "pick": 1}
+        kinds = sorted({e[1] for e in f["list"]} | {e[3] for e in f["list"] if len(e) >= 4})
+        return {"mode": "enumerate", "kinds": kinds, "cap": 200, "pick": 1, "second": 1.0 if any(len(e) >= 4 for e in f["list"]) else 0}
     return dict(f)
